@@ -37,16 +37,23 @@ TRUSTED = [
     "harness/impl/schedfakes.py: FakeTimer, sleep gate, fault patches, serialisation interposer",
 ]
 THEOREMS_DOC = {
-    "C15_generated_shape_good": "the shape read from the working tree satisfies the decidable condition the proofs need",
-    "C15_failed_save_keeps_old_file": "a save that raises at any sub-step leaves need_save = True and a load returns what it "
-                                      "returned when the save began (or, only for a failing backup removal, the complete new snapshot)",
-    "C15_schedule_survives_failure": "invariant: unless stopped, a timer is armed / the task sleeps, or a scheduled save is running",
-    "C15_every_fire_rearms": "every event that ends a scheduled save - returning, OSError or RuntimeError - leaves the next one armed",
+    "C15_generated_shape_good": "the shape read from the working tree (Gen/SchedAst.v) satisfies the decidable condition `good` "
+                                "the proofs need (re-checked by computation on every run)",
+    "C15_policies": "json's and pickle's dict-iteration rules are exact on an unchanged dict",
+    "C15_failed_save_keeps_old_file": "a save that raises at any sub-step (OSError or RuntimeError) leaves need_save = True, files "
+                                      "untouched by that step, and a load returns what it returned when the save began (or, only "
+                                      "for a failing backup removal, the complete new snapshot)",
+    "C15_load0_is_load_at_begin": "the ghost v_load0 equals load(fs) at the event that began the save",
+    "C15_load0_kept": "the ghost v_load0 does not change while the save runs",
+    "C15_schedule_survives_failure": "invariant over all event sequences: unless stopped, the next run is armed or a scheduled save "
+                                     "is running; after stop nothing is armed",
+    "C15_every_fire_rearms": "every event that ends a scheduled save - return, OSError, RuntimeError, skip, denied - arms the next one",
     "C15_next_success_persists_current": "from any reachable idle unsaved state a fault-free undisturbed scheduled save ends with "
                                          "disk = tree, need_save = False, next run armed",
-    "C15_no_lost_update": "invariant over all event sequences: idle and need_save = False -> a load returns the current tree",
+    "C15_returning_save_persists_snapshot": "a save that returns put a complete snapshot in place; it equals the tree if need_save is False",
+    "C15_no_lost_update": "invariant over all event sequences and interleavings: idle and need_save = False -> a load returns the current tree",
     "C15_stop_persists": "from any reachable idle running state stop() with a fault-free final save: disk = tree, nothing armed",
-    "C15_no_lost_update_unfixed_refuted": "clear-after-commit order (before c907183): a 6-event history ends idle, clean, disk <> tree",
+    "C15_no_lost_update_unfixed_refuted": "clear-after-commit order (before c907183): a 5-event history ends idle, marked saved, disk <> tree",
     "C15_schedule_survives_unfixed_refuted": "no try/except around the save (before c158c19): one failing sub-step ends the schedule",
 }
 
@@ -115,7 +122,7 @@ def gen_cases(ctx):
             add("seed", fmt, flv, "B1", False, [{"op": "save", "plan": ["msg", 0, ["n", 9, 17]]}, {"op": "save", "plan": ["clean"]},
                                                  {"op": "stop", "plan": ["clean"]}])
     # (i) every position of a transient fault in sequences of 1-4 scheduled saves
-    fault_bases = ["B1", "B2"] if thorough else ["B1"]
+    fault_bases = ["B1", "B2", "B3"] if thorough else ["B1"]
     for fmt in FMT:
         for flv in FLV:
             for base in fault_bases:
@@ -131,6 +138,24 @@ def gen_cases(ctx):
                                     steps.append({"op": "save", "plan": plan if i == pos else ["clean"]})
                                 steps.append({"op": "stop", "plan": ["clean"]})
                                 add("fault", fmt, flv, base, file, steps)
+    # (i') thorough: two faults in one sequence (consecutive and separated failures)
+    if thorough:
+        kinds2 = [["io", "open", 0], ["io", "ser", 0], ["io", "sync", 0], ["io", "renmain", 0], ["io", "rembak", 0], ["denied"]]
+        for fmt in FMT:
+            for flv in FLV:
+                for file in (True, False):
+                    for length in (2, 3, 4):
+                        for p1 in range(length):
+                            for p2 in range(p1 + 1, length):
+                                for k1 in kinds2:
+                                    for k2 in kinds2:
+                                        steps = []
+                                        for i in range(length):
+                                            if i > 0:
+                                                steps.append({"op": "m", "msg": ["v", 1, 1, 0, 30 + i]})
+                                            steps.append({"op": "save", "plan": k1 if i == p1 else k2 if i == p2 else ["clean"]})
+                                        steps.append({"op": "stop", "plan": ["clean"]})
+                                        add("fault2", fmt, flv, "B1", file, steps)
     # (ii) every serialisation point x every candidate message
     for fmt in FMT:
         for flv in FLV:
@@ -143,7 +168,7 @@ def gen_cases(ctx):
                         add("interleave", fmt, flv, base, (j + len(m)) % 2 == 0, steps)
     # (iii) seeded random sequences
     rng = ctx.rng("c15")
-    for k in range(ctx.budget(300, 6000)):
+    for k in range(ctx.budget(300, 30000)):
         fmt = rng.choice(list(FMT))
         flv = rng.choice(list(FLV))
         prior = []
@@ -189,6 +214,18 @@ def rand_plan(rng, prior):
 
 
 # ------------------------------------------------------------------ model side
+
+def probe_cases():
+    """Outside the model's quantifier: stop() called while a scheduled save serialises."""
+    out = []
+    for fmt in FMT:
+        for flv in FLV:
+            for j in (0, 1):
+                out.append({"tag": "probe", "fmt": fmt, "flavour": flv, "prior": BASES["B1"], "file": True,
+                            "steps": [{"op": "init"}, {"op": "save", "plan": ["clean"]}, {"op": "m", "msg": ["v", 1, 1, 0, 33]},
+                                      {"op": "save", "plan": ["stopat", j]}]})
+    return out
+
 
 def plan_tokens(plan):
     if plan[0] in ("clean", "denied"):
@@ -267,7 +304,10 @@ def monitor(case, obs):
                     bad.append(("ok/not-clean", f"{where}: undisturbed successful save left need_save={o['d']} disk={o['disk']} tree={o['tree']}"))
             if o["out"] == "skip" and o["disk"] != prev["disk"]:
                 bad.append(("skip/wrote", f"{where}: a save of a clean state changed the file"))
-        if op == "save" and prev is not None and prev["a"] and not prev["s"]:
+        if op == "save" and stp["plan"][0] == "stopat" and o["s"] and o["a"]:
+            bad.append((f"stop-during-save/{flv}/rearmed",
+                        f"{where}: stop() ran while the scheduled save was serialising; afterwards a save is still scheduled"))
+        if op == "save" and prev is not None and prev["a"] and not prev["s"] and not o["s"]:
             # a run was due and it ran: whatever happened, the next one must be scheduled
             if not o["a"]:
                 cls = o["out"].split(":")[1] if o["out"].startswith("raise") else o["out"]
@@ -276,7 +316,8 @@ def monitor(case, obs):
         if op == "stop":
             if o["a"]:
                 bad.append(("stop/still-armed", f"{where}: a save is still scheduled after stop()"))
-            if o["out"] in ("ok", "skip") and o["disk"] != o["tree"]:
+            # (a message delivered while the final save serialises is outside "clean stop")
+            if o["out"] in ("ok", "skip") and stp["plan"][0] != "msg" and o["disk"] != o["tree"]:
                 bad.append(("stop/lost", f"{where}: stop() returned but a load gives {o['disk']}, memory holds {o['tree']}"))
         prev = o
     return bad
@@ -363,6 +404,19 @@ def run(ctx, res):
                 xout.append(outs)
         if k % 211 == 0:
             res.sample({"case": c, "impl": [{f: o[f] for f in CMP} for o in obs]})
+    # probes outside the quantifier: reported as findings only when listed in known_findings.json
+    known = {f["key"] for f in core.load_findings() if f.get("property") == ID}
+    notes = []
+    for c in probe_cases():
+        obs = _impl_worker(c)
+        if isinstance(obs, dict):
+            notes.append({"case": c["steps"][-1], "error": obs["harness_error"]})
+            continue
+        for key, text in monitor(c, obs):
+            notes.append({"key": key, "what": text, "fmt": c["fmt"], "flavour": c["flavour"]})
+            if key in known:
+                res.violate(key, text, c, kind="monitor")
+    res.extra["observations_outside_quantifier"] = notes
     res.extra["exhaustive_subspaces"] = [
         "fault position x fault kind x sequence length 1-4 x format x flavour x {file, no file} for the listed base trees",
         "serialisation point j x candidate message x format x flavour for base trees B1-B3",
@@ -378,10 +432,13 @@ def run(ctx, res):
 
 def replay(ctx, case):
     c = case["case"] if "case" in case else case
+    if not c["steps"] or c["steps"][0].get("op") != "init":
+        c = with_initial(c)
     obs = impl_case(c)
     found = monitor(c, obs)
     out = {"case": c, "impl": obs, "monitor": found}
-    if ctx.model is not None:
+    in_model = all(st.get("plan", ["clean"])[0] != "stopat" for st in c["steps"])
+    if ctx.model is not None and in_model:
         out["model"] = model_obs(c, ctx.model.sessions([model_lines(c)])[0])
     out["violates"] = bool(found)
     _cleanup()
